@@ -16,6 +16,7 @@ pub mod c10;
 pub mod c11;
 pub mod c12;
 pub mod c13;
+pub mod c16;
 pub mod c19;
 
 pub fn run(prop: &str, tier: &str) -> ! {
@@ -31,6 +32,7 @@ pub fn run(prop: &str, tier: &str) -> ! {
 		"C11" => c11::run(tier),
 		"C12" => c12::run(tier),
 		"C13" => c13::run(tier),
+		"C16" => c16::run(tier),
 		"C19" => c19::run(tier),
 		_ => machinery_error(&format!("unknown property {}", prop)),
 	}
